@@ -369,9 +369,8 @@ def checkHeaders (fields : List Hpack.Field) : Except UserError Unit :=
   let has := fun (n : String) => fields.any fun f => f.h.1 == Http.str n
   if has "connection" || has "transfer-encoding" || has "upgrade" || has "keep-alive" || has "proxy-connection" then
     .error .malformedHeaders
-  else match fields.find? (fun f => f.h.1 == Http.str "te") with
-    | some f => if f.h.2 != Http.str "trailers" then .error .malformedHeaders else .ok ()
-    | none => .ok ()
+  else if fields.any (fun f => f.h.1 == Http.str "te" && f.h.2 != Http.str "trailers") then .error .malformedHeaders
+  else .ok ()
 
 /-- `Send::send_headers(frame, buffer, stream, counts, task)` -/
 def sendHeaders (s : Streams) (id : Nat) (eos : Bool) (fields : List Hpack.Field) : Streams × Except UserError Unit :=
